@@ -6,12 +6,20 @@ import (
 	"os"
 
 	redisemu "github.com/jimsnab/go-redisemu"
+	vm "github.com/jimsnab/go-redisemu/verifmodel"
+	"github.com/jimsnab/go-redisemu/verifrt"
 )
 
 func seqSpecFor(id, tier string) *SeqSpec {
 	switch id {
+	case "C02":
+		return specC02(tier)
 	case "C03":
 		return specC03(tier)
+	case "C04":
+		return specC04(tier)
+	case "C05":
+		return specC05(tier)
 	}
 	return nil
 }
@@ -24,6 +32,33 @@ func main() {
 		os.Exit(2)
 	}
 	switch os.Args[1] {
+	case "do":
+		// mc do CMD args... [-- CMD args...]: run commands on one connection and print the replies
+		redisemu.VInit()
+		redisemu.VResetGlobals()
+		var cmds [][]string
+		cur := []string{}
+		for _, a := range os.Args[2:] {
+			if a == "--" {
+				cmds = append(cmds, cur)
+				cur = []string{}
+				continue
+			}
+			cur = append(cur, a)
+		}
+		cmds = append(cmds, cur)
+		sch := verifrt.NewSched(nil)
+		sch.Run(func() {
+			vi := redisemu.VNew("")
+			cl := vi.NewClient()
+			for _, cm := range cmds {
+				raw := cl.Do(cm...)
+				r, err := vm.Parse1(raw)
+				fmt.Printf("%v => %s %v\n", cm, r, err)
+			}
+		})
+		fmt.Println("terminal:", sch.Term, sch.PanicVal)
+		return
 	case "worker":
 		id, tier := os.Args[2], os.Args[3]
 		if sp := seqSpecFor(id, tier); sp != nil {
